@@ -941,7 +941,12 @@ impl Oracles {
                 }
                 // C19: with one HTLC per set and a height that never moved the
                 // value is determined exactly.
-                if cfg.raw_opts.is_some() && w.told_low == w.told_all && cfg.max_parts == 1 {
+                // (An implementation may sample the height and the held HTLCs
+                // anywhere between its first write and the pay request: the
+                // exact comparisons apply only when neither moved meanwhile.)
+                let min_now = Self::held_for(w, x).map(|ci| w.node.htlc(w.node.calls[ci].hid).expiry).min();
+                let unmoved = w.told_low == w.told_all && told == w.told_all;
+                if cfg.raw_opts.is_some() && unmoved && min_now == Some(minexp) && cfg.max_parts == 1 {
                     self.hit("c19.maxdelay-exact-checked");
                     let want = bound.min(cfg.policy_delta as u64);
                     if d != want {
@@ -959,7 +964,7 @@ impl Oracles {
                 // C14: with HTLCs of other hashes held, the value must still be
                 // exactly what this hash's own HTLCs determine.
                 if let Some((exact_min, true)) = self.entries.get(x).and_then(|e| e.snap_exact) {
-                    if w.told_low == w.told_all {
+                    if unmoved && min_now == Some(exact_min) {
                         self.hit("c14.maxdelay-exact-with-other-hash-held");
                         let want = ((exact_min as i64 - told as i64 - cfg.cltv_delta as i64).max(0) as u64)
                             .min(cfg.policy_delta as u64)
